@@ -32,7 +32,13 @@ type spec struct {
 	// produced and then compacted in one pass per level (large compaction inputs)
 	Backlog int `json:"backlog,omitempty"`
 	// Demo selects a fixed history (see runDemo)
-	Demo string `json:"demo,omitempty"`
+	Demo           string `json:"demo,omitempty"`
+	DemoMode       string `json:"demo_mode,omitempty"`        // application checkpoint mode of the offline-backfill demo
+	DemoWriteAfter bool   `json:"demo_write_after,omitempty"` // one more application commit after that checkpoint
+	DemoNewObject  bool   `json:"demo_new_object,omitempty"`  // reopen with a new DB object instead of Open() on the same one
+	// DemoFailFirstSync: the first sync after reopening fails (meta file system full) after litestream
+	// initialised; the application then checkpoints PASSIVE again; Snapshot
+	DemoFailFirstSync bool `json:"demo_fail_first_sync,omitempty"`
 }
 
 func init() {
@@ -59,6 +65,15 @@ func cases(run *vf.Run) ([]json.RawMessage, error) {
 	// fixed history: WAL restarted by the application between two litestream syncs, then Snapshot
 	out = append(out, vf.Spec(spec{Seed: 624, Levels: 1, Demo: "snapshot-after-unobserved-wal-restart",
 		Cfg: hist.Config{PageSize: 4096, MinCheckpointPageN: 1000, TruncatePageN: 0, MaxSyncWALFrames: 0}}))
+	// fixed histories: the application checkpoints while litestream is closed, Snapshot right after reopening
+	for i, m := range []string{"PASSIVE", "FULL", "PASSIVE", "TRUNCATE"} {
+		out = append(out, vf.Spec(spec{Seed: 625 + int64(i), Levels: 1, Demo: "snapshot-after-offline-backfill", DemoMode: m, DemoWriteAfter: i >= 2, DemoNewObject: i%2 == 1,
+			Cfg: hist.Config{PageSize: []int{4096, 1024, 8192, 512}[i], MinCheckpointPageN: 1000, TruncatePageN: 0, MaxSyncWALFrames: 0}}))
+	}
+	for i, m := range []string{"none", "PASSIVE"} {
+		out = append(out, vf.Spec(spec{Seed: 635 + int64(i), Levels: 1, Demo: "snapshot-after-offline-backfill", DemoMode: m, DemoNewObject: i == 1, DemoFailFirstSync: true,
+			Cfg: hist.Config{PageSize: []int{4096, 1024}[i], MinCheckpointPageN: 1000, TruncatePageN: 0, MaxSyncWALFrames: 0}}))
+	}
 	backlogs := []int{140, 300}
 	if run.Tier == "thorough" {
 		backlogs = []int{70, 140, 300, 520, 1100}
@@ -109,6 +124,13 @@ func runCase(run *vf.Run, raw json.RawMessage, dir string) *vf.Result {
 	}
 	defer e.Close()
 	e.Tune = func(db *litestream.DB) { db.L0Retention = 24 * time.Hour }
+	if s.DemoFailFirstSync {
+		if err := e.MountMeta(64); err != nil {
+			res.Count("local_fault_unavailable(mount failed)", 1)
+			res.Logf("demo skipped: %v", err)
+			return res
+		}
+	}
 	var dmn *hist.Daemon
 	var levels litestream.CompactionLevels
 	if s.Store {
@@ -211,6 +233,106 @@ func runCase(run *vf.Run, raw json.RawMessage, dir string) *vf.Result {
 			return res
 		}
 		// the refusal must be temporary: after a sync the snapshot is taken
+		if upload() {
+			if _, err := e.LS.Snapshot(ctx); err != nil {
+				res.Evals++
+				res.Violate("snapshot-refused-after-sync", "Snapshot still fails after a successful sync: %v", err)
+				return res
+			}
+			if st.checkAll("demo-after-sync") {
+				return res
+			}
+		}
+	}
+	if s.Demo == "snapshot-after-offline-backfill" {
+		// writes + ack; litestream closed; the application commits and runs a PASSIVE
+		// checkpoint (nobody pins the WAL: every frame is backfilled into the database file,
+		// the WAL is neither restarted nor truncated); litestream reopened; Snapshot before
+		// the first sync of the new session
+		for i := 0; i < 6; i++ {
+			if _, err := e.AppWriteKind("ins-multi"); err != nil {
+				return herr(err)
+			}
+		}
+		if !upload() {
+			res.HarnessErr = "demo: initial sync failed"
+			return res
+		}
+		if s.DemoFailFirstSync {
+			// everything so far is checkpointed into the database file; the live WAL then
+			// only ever holds pages of table t0 (and the ledger), so that pages of t1/t2
+			// changed while litestream is closed exist in the database file alone
+			if err := e.LS.Checkpoint(ctx, "TRUNCATE"); err != nil {
+				e.Logf("demo: checkpoint err=%v", err)
+			}
+			e.ForceTable = 1
+			for i := 0; i < 2; i++ {
+				if _, err := e.AppWriteKind("ins-small"); err != nil {
+					return herr(err)
+				}
+			}
+			if !upload() {
+				res.HarnessErr = "demo: second sync failed"
+				return res
+			}
+		}
+		cctx, cancel := context.WithTimeout(ctx, 30*time.Second)
+		cerr := e.LS.Close(cctx)
+		cancel()
+		if cerr != nil {
+			e.Logf("close err=%v", cerr)
+		}
+		for i := 0; i < 3; i++ {
+			if s.DemoFailFirstSync {
+				e.ForceTable = 2 + i%2 // t1, t2
+			}
+			if _, err := e.AppWriteKind([]string{"ins-multi", "update", "ins-small"}[i]); err != nil {
+				return herr(err)
+			}
+		}
+		e.ForceTable = 0
+		if s.DemoMode != "none" {
+			e.AppCheckpoint(s.DemoMode)
+		}
+		if s.DemoWriteAfter {
+			if _, err := e.AppWriteKind("ins-small"); err != nil {
+				return herr(err)
+			}
+		}
+		if s.DemoNewObject {
+			err = e.StartLS()
+		} else {
+			err = e.LS.Open()
+		}
+		if err != nil {
+			return herr(fmt.Errorf("reopen: %w", err))
+		}
+		if s.DemoFailFirstSync {
+			// the first sync of the new session initialises litestream (its read transaction
+			// now pins the WAL at the current end) but cannot stage its LTX file: disk full.
+			// The application's next PASSIVE checkpoint may then backfill every frame up to
+			// that read mark, i.e. frames litestream has not copied yet.
+			if err := e.MetaFull(true); err != nil {
+				return herr(err)
+			}
+			serr := e.LS.Sync(ctx)
+			e.Logf("first sync after reopen with the meta file system full: err=%v", serr)
+			if err := e.MetaFull(false); err != nil {
+				return herr(err)
+			}
+			e.AppCheckpoint("PASSIVE")
+		}
+		info, err := e.LS.Snapshot(ctx)
+		e.Logf("Snapshot right after reopen (application checkpointed %s while litestream was closed) err=%v info=%+v", s.DemoMode, err, info)
+		if err == nil {
+			res.Count("snapshots", 1)
+		} else {
+			res.Count("snapshot_refused_after_offline_backfill", 1)
+		}
+		ops = append(ops, "demo-snapshot-after-offline-backfill")
+		if st.checkAll("demo") {
+			return res
+		}
 		if upload() {
 			if _, err := e.LS.Snapshot(ctx); err != nil {
 				res.Evals++
